@@ -7,6 +7,7 @@ pub mod alloc;
 #[global_allocator]
 static GLOBAL: alloc::Track = alloc::Track;
 mod scriptgen;
+pub mod harvest;
 
 use std::cell::RefCell;
 use std::io::{BufRead, Write};
